@@ -16,12 +16,18 @@ ops:  build m k V bias  E (u v)*  X(r c …)  Q(r c …)
       build-obj m k V bias  E (u v)*  nP P₁(V k …) …  nQ Q₁(V k …) …
         `GMRFModel`: samples and queries are V × k point sets; extra reply fields MO (mean() as V × k) and
         M1 (each query instance asked on its own, sparse storage)
+      build-src m k V bias  E (u v)*  X(r c …)  Q(r c …)
+        the same as `build`, computed by the definitions `GenProps/C12Src.lean` proves equal to the TRANSLATION of the
+        current source text (`Core/C12Src.lean`: `vecInitCoded` with the coded `_covariance_matrix_inverse`, the four
+        assembly routines, `mahalanobisCoreCoded`), sparse and dense storage built separately; `argsort` is the
+        stable insertion argsort `argsortIns`
 reply: ok D <n·n dense entries> S <n·n sparse entries> IP <indptr> MU <mean> MS <mahal sparse> MD <mahal dense>
           MR <mahal dense, subtract_mean=False>
        | err singular | err zerodim | err certificate
 -/
 import MenpoModel.Core.Codec
 import MenpoModel.Core.C12GMRF
+import MenpoModel.Core.C12Src
 
 namespace MenpoModel.Drive.C12
 open MenpoModel.Codec MenpoModel.C12
@@ -57,6 +63,31 @@ def step (toks : List String) : String :=
       match build m k V X X.length b es with
       | some M => fmtModel k V M Q
       | none => "err singular"
+    | none => "bad-op"
+  | "build-src" :: rest =>
+    match runP (do
+        let m ← pMode; let k ← pNat; let V ← pNat; let b ← pBool
+        let es ← pList pEdge; let X ← pMat; let Q ← pMat
+        pure (m, k, V, b, es, X, Q)) rest with
+    | some (m, k, V, b, es, X, Q) =>
+      let run := fun (sparse : Bool) =>
+        Src.vecInitCoded (Src.covInverseCoded fun _ => none) Src.argsortIns (.arr2 X) ⟨es, V⟩ none (Src.toS m) none
+          .float64 sparse b false
+      match run true, run false with
+      | .ok Ms, .ok Md =>
+        let n := V * k
+        let Qm : Mat := tab Q.length n (ent Q)
+        let ip := match Ms.precision with
+          | .bsr _ _ B => B.indptr
+          | .dense _ => []
+        "ok D " ++ fmtMat (tab n n Md.precision.ent) ++ " S " ++ fmtMat (tab n n Ms.precision.ent) ++
+          " IP " ++ fmtNats ip ++ " MU " ++ fmtRats Md.mean_vector ++
+          " MS " ++ fmtRats (Src.mahalanobisCoreCoded id Ms Qm true false).toList ++
+          " MD " ++ fmtRats (Src.mahalanobisCoreCoded id Md Qm true false).toList ++
+          " MR " ++ fmtRats (Src.mahalanobisCoreCoded id Md Qm false false).toList
+      | .error .linAlg0d, _ => "err zerodim"
+      | .error .singular, _ => "err singular"
+      | _, _ => "err other"
     | none => "bad-op"
   | "build-ns" :: rest =>
     match runP (do
